@@ -68,6 +68,15 @@ pub enum J {
     O(Vec<(String, J)>),
 }
 
+impl J {
+    pub fn as_str(&self) -> Option<&str> {
+        match self {
+            J::S(s) => Some(s.as_str()),
+            _ => None,
+        }
+    }
+}
+
 pub fn js<S: AsRef<str>>(s: S) -> J {
     J::S(s.as_ref().to_string())
 }
